@@ -110,6 +110,19 @@ fn free_date(ledger: &[Tx], tk: &str, mut date: NaiveDate) -> NaiveDate {
     date
 }
 
+/// A date on which the base ledger already has a capital return / accumulation of `tk` (and no
+/// trade or split of it): several events of one security on one date are well defined (each
+/// moves cost by its own net amount), so E may share its date with one of them.
+fn shared_event_date(ledger: &[Tx], tk: &str, pick: usize) -> Option<NaiveDate> {
+    let dates: Vec<NaiveDate> = ledger
+        .iter()
+        .filter(|t| t.ticker == tk && t.is_event())
+        .map(|t| t.date)
+        .filter(|d| !ledger.iter().any(|t| t.ticker == tk && t.date == *d && (t.is_trade() || t.is_split())))
+        .collect();
+    if dates.is_empty() { None } else { Some(dates[pick % dates.len()]) }
+}
+
 /// F12 signature: the security's total cost is still conserved (C03 identity holds) and the
 /// emulated pre-pass shows that apportioning the capital returns per share drives the adjusted
 /// cost of at least one acquisition lot below zero (lots of very different unit cost), while
@@ -166,7 +179,13 @@ pub fn check(c: &Case, obs: &mut Obs) -> Verdict {
     }
     let tk = tickers[(c.pos as usize) % tickers.len()].clone();
     let span = (last - first).num_days() + 20;
-    let date = free_date(base, &tk, first - Duration::days(5) + Duration::days((c.pos as i64 * 7) % span.max(1)));
+    let mut date = free_date(base, &tk, first - Duration::days(5) + Duration::days((c.pos as i64 * 7) % span.max(1)));
+    if c.fee % 4 == 3 && c.kind != 3 {
+        if let Some(d) = shared_event_date(base, &tk, c.pos as usize) {
+            date = d;
+            obs.class("event_shares_its_date_with_another_event");
+        }
+    }
     let held = holding_before(base, &tk, date);
     let fees = if c.fee % 3 == 0 { Decimal::new((c.fee / 3 % 300) as i64, 2) } else { Decimal::ZERO };
     let m = model::evaluate(base, &NoFx, Quirks::default()).ok();
@@ -423,7 +442,16 @@ fn boundary(c: &Case, base: &[Tx], r0: &TaxReport, tk: &str, obs: &mut Obs) -> V
         return Verdict::Pass;
     }
     let mut l2 = base.to_vec();
-    l2.push(Tx { date, ticker: tk.to_string(), op: Op::CapRet { q: Decimal::from(10), total: Money::gbp(net + fees), fees: Money::gbp(fees) } });
+    // one return of `net`, or the same net amount as two returns on that date (what the shares
+    // can absorb is the same: after the first, only the rest is left for the second)
+    let first_part = (net * Decimal::new(1 + (c.pos % 9) as i64, 1)).round_dp(2);
+    if c.pos % 3 == 1 && first_part > Decimal::ZERO && first_part < net {
+        obs.class("boundary_return_in_two_same_day_lines");
+        l2.push(Tx { date, ticker: tk.to_string(), op: Op::CapRet { q: Decimal::from(10), total: Money::gbp(first_part + fees), fees: Money::gbp(fees) } });
+        l2.push(Tx { date, ticker: tk.to_string(), op: Op::CapRet { q: Decimal::from(7), total: Money::gbp(net - first_part), fees: Money::gbp(Decimal::ZERO) } });
+    } else {
+        l2.push(Tx { date, ticker: tk.to_string(), op: Op::CapRet { q: Decimal::from(10), total: Money::gbp(net + fees), fees: Money::gbp(fees) } });
+    }
     // numeric comparison rule: within 1e-9 of the boundary either verdict is accepted (the tool's
     // own basis is a rounded decimal)
     let tol = tool::tol_money();
